@@ -164,9 +164,35 @@ func (s *EtcdStore) UpdateOffsets(ctx context.Context, topic string, partition i
 	ctx, cancel := context.WithTimeout(ctx, 3*time.Second)
 	defer cancel()
 	next := lastOffset + 1
-	_, err := s.client.Put(ctx, offsetKey(topic, partition), strconv.FormatInt(next, 10))
-	s.recordEtcdResult(err)
-	return err
+	key := offsetKey(topic, partition)
+	// The end offset only moves forward: flush callbacks may land out of
+	// order (also across brokers), and a late, lower value must not overwrite
+	// a higher one. Write with a compare-and-swap on the value that was read.
+	for {
+		resp, err := s.client.Get(ctx, key)
+		if err != nil {
+			s.recordEtcdResult(err)
+			return err
+		}
+		cmp := clientv3.Compare(clientv3.CreateRevision(key), "=", 0)
+		if len(resp.Kvs) > 0 {
+			current, perr := strconv.ParseInt(strings.TrimSpace(string(resp.Kvs[0].Value)), 10, 64)
+			if perr == nil && current >= next {
+				s.recordEtcdResult(nil)
+				return nil
+			}
+			cmp = clientv3.Compare(clientv3.ModRevision(key), "=", resp.Kvs[0].ModRevision)
+		}
+		txn, err := s.client.Txn(ctx).If(cmp).Then(clientv3.OpPut(key, strconv.FormatInt(next, 10))).Commit()
+		if err != nil {
+			s.recordEtcdResult(err)
+			return err
+		}
+		if txn.Succeeded {
+			s.recordEtcdResult(nil)
+			return nil
+		}
+	}
 }
 
 func offsetKey(topic string, partition int32) string {
